@@ -27,6 +27,7 @@ from asl.cfg import cfg_of
 from asl.loader import AnalysisError, norm, own_nodes
 from asl.values import atoms_deep
 from .c02 import _IntOps
+from .common import raised_class
 
 LEVEL = {
     "decided": "C01 (necessary clauses): (R01.1) merge pops the smaller (resp. larger) head and breaks ties in favour "
@@ -120,19 +121,40 @@ def _eval_method(ctx, cls_short: str, mname: str, outcome: str, reverse: bool, a
 def r01_1(ctx) -> None:
     u = ctx.unit("heapq.merge")
     holder = "heapq._KeyIter"
-    # the heap entries: tuples (holder, position) built in merge
-    entries = [n for n in own_nodes(u.node) if isinstance(n, ast.Tuple) and len(n.elts) == 2
-               and isinstance(n.ctx, ast.Load) and isinstance(n.elts[0], ast.Name)
-               and any(isinstance(p, (ast.ListComp,)) and p.elt is n for p in own_nodes(u.node))]
-    ctx.check(len(entries) == 1, "R01.1", u, "merge", "heap entries (holder, position) are built in one place")
+    # the heap entries: tuples (holder, position) that enter the heap for the first time —
+    # a comprehension element, an ``append`` argument or a ``heappush`` argument
+    cfg = cfg_of(u)
+    entries = []
+    parents = {}
+    for x in ast.walk(u.node):
+        for c in ast.iter_child_nodes(x):
+            parents[id(c)] = x
+    for n in own_nodes(u.node):
+        if not (isinstance(n, ast.Tuple) and len(n.elts) == 2 and isinstance(n.ctx, ast.Load) and isinstance(n.elts[0], ast.Name)):
+            continue
+        par = parents.get(id(n))
+        first_time = isinstance(par, ast.ListComp) and par.elt is n
+        if isinstance(par, ast.Call) and n in par.args:
+            fname = norm(par.func).split(".")[-1]
+            first_time = fname in ("append", "heappush")
+        if not first_time:
+            continue
+        nodes = [m for m in cfg.nodes if m.ast is par or (m.kind == "collect" and m.ast is par)]
+        at = nodes[0] if nodes else None
+        v = ctx.vals.expr(u, n.elts[0], at)
+        if any(a[0] == "libinst" and a[1].endswith("_KeyIter") for a in v) or isinstance(par, ast.ListComp):
+            entries.append(n)
+    ctx.check(len(entries) == 1, "R01.1", u, "merge", "heap entries (holder, position) are built in one place",
+              witness=str([norm(e) for e in entries]))
     if len(entries) != 1:
         return
-    comp = [p for p in own_nodes(u.node) if isinstance(p, ast.ListComp) and p.elt is entries[0]][0]
-    tgt = comp.generators[0].target
-    idx_name = tgt.elts[0].id if isinstance(tgt, ast.Tuple) and isinstance(tgt.elts[0], ast.Name) else None
     flag = [p.arg for p in u.params() if p.annotation is not None and norm(p.annotation) == "bool"]
-    if idx_name is None or not flag:
+    idx_names = [x.id for x in ast.walk(entries[0].elts[1]) if isinstance(x, ast.Name) and x.id not in flag]
+    idx_name = idx_names[0] if idx_names else None
+    if not flag or (idx_name is None and not isinstance(entries[0].elts[1], ast.Constant)):
         raise AnalysisError("merge: heap entry construction changed shape (anchor moved)")
+    if idx_name is None:
+        idx_name = "_no_index_"
     ev = AbsEval(_IntOps())
     table = {}
     for reverse in (False, True):
@@ -226,7 +248,7 @@ def r01_2(ctx) -> None:
             if isinstance(r, ast.Raise):
                 if r.exc is None:
                     continue
-                cls = norm(r.exc.func) if isinstance(r.exc, ast.Call) else norm(r.exc)
+                cls = raised_class(ctx, u, r)
                 seen[(short, cls)] = seen.get((short, cls), 0) + 1
                 ok = (short, cls) in RAISES
                 ctx.check(ok, "R01.2", u, r, f"`raise {cls}` is the stdlib's exception class for this condition" if ok
